@@ -301,12 +301,30 @@ Definition gate_agrees (g : cfgx) (s : list string) : Prop := same_set (atoms_x 
 
 Definition show_atoms (l : list string) : string := String.concat "|" (canon l).
 
+Definition cfgx_eqb (a b : cfgx) : bool :=
+  match a, b with
+  | None, None => true
+  | Some x, Some y => cfg_expr_eqb x y
+  | _, _ => false
+  end.
+
+Fixpoint strs_eqb (a b : list string) : bool :=
+  match a, b with
+  | [], [] => true
+  | x :: a', y :: b' => String.eqb x y && strs_eqb a' b'
+  | _, _ => false
+  end.
+
+(* key@attr-set@effective-set@literal ; "=" abbreviates "same as the attr column" (effective set equal to the
+   attribute's / literal equal to the single atom), "-" = no attribute *)
 Definition show_model_item (i : item cfgx) : string :=
-  it_key i ++ "@" ++ show_atoms (atoms_x (it_attr i)) ++ "@" ++ show_atoms (atoms_x (it_eff i)) ++ "@" ++
-  match it_attr i with None => "-" | Some e => render e end.
+  it_key i ++ "@" ++ show_atoms (atoms_x (it_attr i)) ++ "@" ++
+  (if cfgx_eqb (it_eff i) (it_attr i) then "=" else show_atoms (atoms_x (it_eff i))) ++ "@" ++
+  match it_attr i with None => "-" | Some (Atom _) => "=" | Some e => render e end.
 
 Definition show_spec_item (i : item (list string)) : string :=
-  it_key i ++ "@" ++ show_atoms (it_attr i) ++ "@" ++ show_atoms (it_eff i).
+  it_key i ++ "@" ++ show_atoms (it_attr i) ++ "@" ++
+  (if strs_eqb (it_eff i) (it_attr i) then "=" else show_atoms (it_eff i)).
 
 Definition show_items {A} (f : A -> string) (l : list A) : string := String.concat ";" (map f l).
 
